@@ -32,15 +32,21 @@ MCCheckpoint(r) == UseCheckpoint /\ DoCheckpoint(r) /\ last' = [a |-> "Checkpoin
 MCCrash(r) == nCrash < MaxCrash /\ DoCrash(r) /\ last' = [a |-> "Crash", r |-> r]
               /\ nCrash' = nCrash + 1 /\ UNCHANGED <<nMsgs, nElect, nIsr, nRej>>
 MCRestart(r, reach) == DoRestart(r, reach) /\ last' = [a |-> "Restart", r |-> r, reach |-> reach] /\ UNCHANGED budget
-MCElect(n, reach) == nElect < MaxElect /\ DoElect(n, reach) /\ last' = [a |-> "Elect", n |-> n, reach |-> reach]
+MCElect(n, reach, lag) == nElect < MaxElect /\ DoElect(n, reach, lag)
+                     /\ last' = [a |-> "Elect", n |-> n, reach |-> reach, lag |-> lag]
                      /\ nElect' = nElect + 1 /\ UNCHANGED <<nMsgs, nCrash, nIsr, nRej>>
+MCStaleFetch(f) == DoStaleFetch(f) /\ obs.acks = obs.acks /\ last.a # "StaleFetch"
+                   /\ last' = [a |-> "StaleFetch", f |-> f] /\ UNCHANGED budget
+MCApplyMeta(f, reach) == DoApplyMeta(f, reach) /\ last' = [a |-> "ApplyMeta", f |-> f, reach |-> reach] /\ UNCHANGED budget
 
 MCNext ==
   \/ \E n \in 1..Batch : \E pols \in [1..n -> Policies] : MCPublish(pols)
   \/ MCReject
   \/ \E f \in R, late \in BOOLEAN : MCFetch(f, late)
   \/ \E f \in R : MCLagExpire(f) \/ MCShrink(f) \/ MCExpand(f) \/ MCCheckpoint(f) \/ MCCrash(f)
-  \/ \E r \in R, reach \in BOOLEAN : MCRestart(r, reach) \/ MCElect(r, reach)
+  \/ \E r \in R, reach \in BOOLEAN : MCRestart(r, reach) \/ MCApplyMeta(r, reach)
+  \/ \E r \in R, reach \in BOOLEAN, lag \in SUBSET R : MCElect(r, reach, lag)
+  \/ \E f \in R : MCStaleFetch(f)
 
 MCSpec == MCInit /\ [][MCNext]_mcvars
 
@@ -76,5 +82,5 @@ NoBadAck_HWFallback == ~(taint = {"hw-fallback"} /\ AckBad)
 NoBadAck_ExpandLagging == ~(taint = {"expand-lagging"} /\ AckBad)
 NoBadAck_StaleIsrOffset == ~(taint = {"stale-isr-offset"} /\ AckBad)
 
-MCView == <<meta, up, role, log, hw, hwDisk, ec, isrOff, pend, caught, committed, nacked, taint, nMsgs, nElect, nCrash, nIsr, nRej>>
+MCView == <<meta, up, role, log, hw, hwDisk, ec, isrOff, pend, caught, committed, nacked, taint, lagging, nMsgs, nElect, nCrash, nIsr, nRej>>
 =============================================================================
